@@ -66,6 +66,10 @@ package ice
 // The periodic task body of connectivityChecks (closure `contact` -> loop task).
 //@ func (*Agent).connectivityChecks$1$1
 //@   props C04
+//@   ghostvar rearmed bool = false
+//@   site call Now#1 ghost rearmed := true
+//@   site call Now#1 assert deadline-restarts-only-on-entering-checking: a.connectionState == ConnectionStateChecking && lastConnectionState != ConnectionStateChecking
+//@   site call Since#1 assert deadline-measured-from-latest-entry: lastConnectionState != ConnectionStateChecking ==> rearmed
 //@   site call updateConnectionState#1 assert initial-deadline-only-while-checking: a.connectionState == ConnectionStateChecking && arg1 == ConnectionStateFailed && checkingTimeout != 0
 //@   site call ContactCandidates#1 assert no-checks-while-failed: a.connectionState != ConnectionStateFailed
 //@   ensures failed-tick-is-silent: old(a.connectionState) == ConnectionStateFailed ==> unchangedExcept("E_ice.ConnectionState")
